@@ -7,15 +7,29 @@ package sftp
 
 
 
+// request ids are the client's choice: arbitrary, pairwise distinct (added
+// after seeded change C14-d, which keyed on one particular id)
+func vIDs(n int) []uint32 {
+	ids := make([]uint32, n)
+	for i := range ids {
+		ids[i] = vNondetU32()
+		for j := 0; j < i; j++ {
+			vAssume(ids[i] != ids[j])
+		}
+	}
+	return ids
+}
+
 func vh_C14_write_write_read_close() {
 	vErrKinds = 0
+	ids := vIDs(3)
 	svr := vNewServer(false, "")
 	f := &vMFile{name: "/o", data: []byte{0, 0, 0, 0}, yield: true}
 	svr.openFiles["1"] = f
 	resp := vPipelineOpt(svr, []requestPacket{
-		&sshFxpWritePacket{ID: 1, Handle: "1", Offset: 0, Length: 1, Data: []byte{9}},
-		&sshFxpReadPacket{ID: 2, Handle: "1", Offset: 2, Len: 1},
-		&sshFxpClosePacket{ID: 3, Handle: "1"},
+		&sshFxpWritePacket{ID: ids[0], Handle: "1", Offset: 0, Length: 1, Data: []byte{9}},
+		&sshFxpReadPacket{ID: ids[1], Handle: "1", Offset: 2, Len: 1},
+		&sshFxpClosePacket{ID: ids[2], Handle: "1"},
 	}, false)
 	vAssert(f.closed == 1, "file closed exactly once")
 	vAssert(f.inAtClose == 0, "no read or write in flight when Close runs")
@@ -31,7 +45,7 @@ func vh_C14_write_write_read_close() {
 			}
 		}
 		vAssert(ok == 3, "all three succeed")
-		vAssert(vRespID(resp[2]) == 3, "the CLOSE completes last")
+		vAssert(vRespID(resp[2]) == ids[2], "the CLOSE completes last")
 	}
 }
 
@@ -39,13 +53,14 @@ func vh_C14_write_write_read_close() {
 // after seeded change C14-b)
 func vh_C14_read_read_close() {
 	vErrKinds = 0
+	ids := vIDs(3)
 	svr := vNewServer(false, "")
 	f := &vMFile{name: "/o", data: []byte{1, 2, 3, 4}, yield: true}
 	svr.openFiles["1"] = f
 	resp := vPipelineOpt(svr, []requestPacket{
-		&sshFxpReadPacket{ID: 1, Handle: "1", Offset: 0, Len: 1},
-		&sshFxpReadPacket{ID: 2, Handle: "1", Offset: 2, Len: 1},
-		&sshFxpClosePacket{ID: 3, Handle: "1"},
+		&sshFxpReadPacket{ID: ids[0], Handle: "1", Offset: 0, Len: 1},
+		&sshFxpReadPacket{ID: ids[1], Handle: "1", Offset: 2, Len: 1},
+		&sshFxpClosePacket{ID: ids[2], Handle: "1"},
 	}, false)
 	vAssert(f.closed == 1, "file closed exactly once")
 	vAssert(f.inAtClose == 0, "no read in flight when Close runs")
@@ -54,7 +69,7 @@ func vh_C14_read_read_close() {
 	vAssert(len(resp) == 3, "three responses")
 	if len(resp) == 3 {
 		vAssert(resp[0][4] == sshFxpData && resp[1][4] == sshFxpData, "both reads return data")
-		vAssert(vRespID(resp[2]) == 3, "the CLOSE completes last")
+		vAssert(vRespID(resp[2]) == ids[2], "the CLOSE completes last")
 	}
 }
 
@@ -64,16 +79,17 @@ func vh_C14_read_read_close() {
 //verif:tier thorough
 func vh_C14_two_handles() {
 	vErrKinds = 0
+	ids := vIDs(4)
 	svr := vNewServer(false, "")
 	f := &vMFile{name: "/o", data: []byte{0, 0, 0, 0}, yield: true}
 	g := &vMFile{name: "/p", data: []byte{5, 5, 5, 5}, yield: true}
 	svr.openFiles["1"] = f
 	svr.openFiles["2"] = g
 	resp := vPipelineOpt(svr, []requestPacket{
-		&sshFxpWritePacket{ID: 1, Handle: "1", Offset: 0, Length: 1, Data: []byte{9}},
-		&sshFxpReadPacket{ID: 2, Handle: "2", Offset: 1, Len: 2},
-		&sshFxpClosePacket{ID: 3, Handle: "1"},
-		&sshFxpReadPacket{ID: 4, Handle: "2", Offset: 0, Len: 1},
+		&sshFxpWritePacket{ID: ids[0], Handle: "1", Offset: 0, Length: 1, Data: []byte{9}},
+		&sshFxpReadPacket{ID: ids[1], Handle: "2", Offset: 1, Len: 2},
+		&sshFxpClosePacket{ID: ids[2], Handle: "1"},
+		&sshFxpReadPacket{ID: ids[3], Handle: "2", Offset: 0, Len: 1},
 	}, false)
 	vAssert(f.closed == 1 && f.inAtClose == 0 && f.afterClose == 0, "handle 1: closed once, nothing in flight at or after Close")
 	vAssert(g.closed == 0 && g.reads == 2, "handle 2 untouched by the close, both reads ran")
